@@ -374,6 +374,9 @@ func init() {
 		if j.Tier == "thorough" {
 			g = thoroughGrammar()
 		}
+		if j.s("elem", "") == "ov" {
+			g = structGrammar(j.Tier == "thorough")
+		}
 		g.TwoByte = j.p("twobyte", 0) == 1
 		inputs := g.texts()
 		vias := []string{"FromJSON", "json.Unmarshal"}
